@@ -218,7 +218,7 @@ def loop_scanner(f, b, I, target, arr, facts):
 def find_range(d):
     if not isinstance(d, tuple):
         return None
-    if d and d[0] == "agg" and d[2] in ("std::ops::Range", "core::ops::Range"):
+    if d and d[0] == "agg" and d[2].endswith("ops::range::Range"):
         return d
     for x in d:
         if isinstance(x, tuple):
